@@ -3680,6 +3680,63 @@ fn entry_run(out: &mut Out, rng: &mut Rng, thorough: bool) {
 					}
 				}
 			}
+			// pow_size with a real target, and mine_genesis_block: IF it returns, the header passes
+			// verify_size, reaches the target and carries min_edge_bits as its label
+			// (Props/C05Mine.lean pow_size_returns_verified)
+			{
+				let n_t = if *ct == ChainTypes::AutomatedTesting { if thorough { 30 } else { 10 } } else { 1 };
+				let (mut ret, mut okc) = (0u64, 0u64);
+				let mut steps: Vec<u64> = vec![];
+				for i in 0..n_t {
+					let h = heights[i % heights.len()];
+					let b0 = mk(rng, h, min_eb);
+					let start = b0.pow.nonce;
+					let target = Difficulty::from_num(grin_core::consensus::graph_weight(h, min_eb) * rng.range(1, 5));
+					let mut b = b0.clone();
+					let r = catch(std::panic::AssertUnwindSafe(move || {
+						let r = pow_size(&mut b, target, ps, min_eb);
+						(r.is_ok(), b)
+					}));
+					if let Ok((true, b)) = r {
+						ret += 1;
+						steps.push(b.pow.nonce.wrapping_sub(start));
+						let d = b.pow.to_difficulty(b.height);
+						let res = offer(&b, cname, ps, Some(min_eb), "pow_size-with-target", out, &mut st, &mut bad);
+						if res != "ok" || d < target || b.pow.proof.edge_bits != min_eb {
+							bad += 1;
+							out.raw(&format!("#ORACLE-FAIL C05 pow_size returned a header that does not verify / reach the target / carry min_edge_bits: chain={} height={} verify_size={} to_difficulty={} target={} edge_bits={} nonces={}", cname, b.height, res, d.to_num(), target.to_num(), b.pow.proof.edge_bits, nat_list(&b.pow.proof.nonces)));
+						} else {
+							okc += 1;
+						}
+					}
+				}
+				let g = catch(|| grin_core::pow::mine_genesis_block().ok());
+				let gen = match g {
+					Ok(Some(gb)) => {
+						let res = offer(&gb.header, cname, ps, Some(min_eb), "mine_genesis_block", out, &mut st, &mut bad);
+						let d = gb.header.pow.to_difficulty(0);
+						if res != "ok" || d < gb.header.pow.total_difficulty {
+							bad += 1;
+							out.raw(&format!("#ORACLE-FAIL C05 mine_genesis_block returned a header that does not verify / reach its own total difficulty: chain={} verify_size={} to_difficulty={} total_difficulty={}", cname, res, d.to_num(), gb.header.pow.total_difficulty.to_num()));
+						}
+						format!("verify_size={} to_difficulty={} >= total_difficulty={}", res, d.to_num(), gb.header.pow.total_difficulty.to_num())
+					}
+					Ok(None) => "error".to_string(),
+					Err(_) => "panic".to_string(),
+				};
+				// observation (not judged): another graph size than min_edge_bits
+				let mut bx = mk(rng, 0, min_eb);
+				let rx = catch(std::panic::AssertUnwindSafe(move || {
+					let r = pow_size(&mut bx, Difficulty::zero(), ps, min_eb + 1);
+					(r.is_ok(), bx)
+				}));
+				let obs = match rx {
+					Ok((true, bx)) => format!("returned a header labelled edge_bits={} (cycle solved on the {}-bit graph), verify_size ok={}", bx.pow.proof.edge_bits, min_eb + 1, verify_size(&bx).is_ok()),
+					Ok((false, _)) => "error".to_string(),
+					Err(_) => "panic".to_string(),
+				};
+				out.raw(&format!("#STAT entry {} pow_size with a target: returned={} verified-and-reaching-target={} nonce steps={:?}; mine_genesis_block: {}; pow_size(sz = min_edge_bits + 1): {}", cname, ret, okc, steps, gen, obs));
+			}
 		} else {
 			// Mainnet / Testnet: for every header version a header whose pre_pow seeds an 11-bit graph
 			// with a 42-cycle under the graph definition scheduled for that version (found by this
@@ -3715,8 +3772,13 @@ fn entry_run(out: &mut Out, rng: &mut Rng, thorough: bool) {
 					let eps: Vec<(u64, u64)> = (0..(1u64 << eb0)).map(|n| v.ep(&keys, eb0, n)).collect();
 					let mut budget = 300_000u64;
 					if let Some(c) = find_cycles(*v, &eps, ps, &mut budget, 1).into_iter().next() {
-						b.pow.proof.nonces = c;
-						found = Some(b);
+						// the finder works on vertex classes; keep only what the harness' own cycle oracle
+						// confirms (Cuckatoo: a closed walk through node pairs can revisit a node)
+						let epsp: Vec<(u64, u64)> = c.iter().map(|n| eps[*n as usize]).collect();
+						if oracle(*v, ps, (1u64 << eb0) - 1, &epsp, &c) {
+							b.pow.proof.nonces = c;
+							found = Some(b);
+						}
 					}
 				}
 				match found {
